@@ -78,6 +78,68 @@ theorem genpath_fuel_irrelevant (enc : Str → Str) (g : Graph) (root : NodeId) 
     (h : g.nodes.length ≤ fuel) : (walkNode enc g fuel [] root {}).out = sealed enc g root :=
   sealed_fuel enc g root fuel h
 
+/-! #### the whole `submit` call: the walk of the task, then the walks of its init tasks
+
+    `submitPaths enc g root` = everything `root.submit()` generates (graph `g`: init tasks already set):
+    `ConfigInformation.submit` seals the task and then each init task under `__init_tasks__` / index.
+    `genpaths` above is the first walk alone. -/
+
+/-- for a task that is not sealed yet the late walks add nothing: its own walk reaches its init tasks. -/
+theorem submit_unsealed_eq (enc : Str → Str) (g : Graph) (root : NodeId) (nd : Node) (hn : g.node root = some nd)
+    (hs : nd.isSealed = false) : submitPaths enc g root = genpaths enc g root :=
+  submitPaths_unsealed enc g root nd hn hs
+
+/-- for a task sealed before its submission (as a parameter of another task, by `instance()`) the
+    submission generates paths for (sub-configurations of) its init tasks only, all below
+    `out/__init_tasks__/<index>/` of the job directory of the task. -/
+theorem submit_of_sealed_task (enc : Str → Str) (g : Graph) (hg : g.OK enc) (root : NodeId) (nd : Node)
+    (hn : g.node root = some nd) (hs : nd.isSealed = true) (e : Entry) (he : e ∈ submitPaths enc g root) :
+    e.node ≠ root ∧ ∃ i t, i < nd.initTasks.length ∧ e.keys = initKey :: idxKey i :: t
+      ∧ e.path = ⟨false, outStr :: initKey :: idxKey i :: t ++ [e.file]⟩ := by
+  obtain ⟨hok, hsh⟩ := submitSealed_sealed_root enc g hg root nd hn hs
+  obtain ⟨_, hm, _, _, _⟩ := mem_entries he
+  obtain ⟨h1, i, t, hi, hk⟩ := hsh _ hm
+  obtain ⟨_, _, hp⟩ := entries_shape enc g hg _ hok e he
+  refine ⟨h1, i, t, hi, hk, ?_⟩
+  have hk' : e.keys = initKey :: idxKey i :: t := hk
+  rw [hp, hk']
+  rfl
+
+/-- **C17, first sentence, whole submission.** -/
+theorem submit_inside (enc : Str → Str) (g : Graph) (hg : g.OK enc) (root : NodeId) (e : Entry)
+    (he : e ∈ submitPaths enc g root) :
+    e.path.Inside ∧ e.path = ⟨false, base e.keys ++ [e.file]⟩ ∧ (∀ c ∈ e.path.comps, Plain c) := by
+  obtain ⟨hk, hf, hp⟩ := entries_shape enc g hg _ (submitSealed_ok enc g hg root) e he
+  refine ⟨hp ▸ (genPath_plain e.keys e.file hk hf ▸ genPath_inside e.keys e.file hk hf), hp, ?_⟩
+  rw [hp]
+  intro c hc
+  rcases List.mem_append.mp hc with hc | hc
+  · exact base_plain hk c hc
+  · simp only [List.mem_singleton] at hc; exact hc ▸ hf
+
+/-- **C17, second sentence, whole submission**: also between the walk of the task and the late walks of its
+    init tasks (at most one of the two generates anything). -/
+theorem submit_injective (enc : Str → Str) (g : Graph) (hg : g.OK enc) (root : NodeId) (e1 e2 : Entry)
+    (h1 : e1 ∈ submitPaths enc g root) (h2 : e2 ∈ submitPaths enc g root) (h : e1.path = e2.path) :
+    e1.node = e2.node ∧ e1.file = e2.file :=
+  let ⟨a, b, _⟩ := entries_inj enc g hg _ (submitSealed_ok enc g hg root) e1 e2 h1 h2 h
+  ⟨a, b⟩
+
+theorem submit_once (enc : Str → Str) (g : Graph) (hg : g.OK enc) (root : NodeId) :
+    ((submitPaths enc g root).map (fun e => (e.node, e.arg))).Nodup
+      ∧ ((submitSealed enc g root).map Prod.snd).Nodup ∧ ((submitSealed enc g root).map Prod.fst).Nodup :=
+  ⟨entries_params_nodup enc g hg _ (submitSealed_ok enc g hg root).nodes, (submitSealed_ok enc g hg root).pos,
+   (submitSealed_ok enc g hg root).nodes⟩
+
+/-- **C17, third sentence, whole submission.** -/
+theorem submit_deterministic (enc : Str → Str) (σ : NodeId → NodeId) (g g' : Graph) (hs : Graph.Same σ g g')
+    (root : NodeId) : submitPaths enc g' (σ root) = (submitPaths enc g root).map (Entry.rename σ) :=
+  submitPaths_rename enc σ g g' hs root
+
+theorem submit_fuel_irrelevant (enc : Str → Str) (g : Graph) (root : NodeId) (fuel : Nat)
+    (h : g.nodes.length ≤ fuel) : (submitWalk enc g fuel root).out = submitSealed enc g root := by
+  rw [submitWalk_fuel enc g root fuel h]; rfl
+
 /-! #### with the proposed repair of F16 (dict keys pushed through `escapeKey`) nothing is asked of dict keys -/
 
 /-- `escapeKey` is injective and always yields a plain component. -/
